@@ -182,20 +182,47 @@ func C16label(p *load.Program, run *report.Run) {
 			if !ok {
 				continue
 			}
-			call, idx := isLabelEqual(iff.Cond)
+			cond, tEdge, fEdge := iff.Cond, b.Succs[0], b.Succs[1]
+			if u, ok := cond.(*ssa.UnOp); ok && u.Op == token.NOT {
+				cond, tEdge, fEdge = u.X, fEdge, tEdge
+			}
+			call, idx := isLabelEqual(cond)
 			if call == nil {
 				continue
 			}
 			run.Count("label-comparisons", 1)
 			ckey := fmt.Sprintf("%s/Equal(L%d)", key, idx)
 			if idx < 0 {
+				// the label is compared with the wire's label *for a bit b* (a selector such as LabelForBit):
+				// whatever chose b, equality proves the label is that of b — the function may then answer b, and
+				// has to leave with an error otherwise
+				if bit := selectedLabelBit(call); bit != nil {
+					okBit := false
+					if ret, ok := tEdge.Instrs[len(tEdge.Instrs)-1].(*ssa.Return); ok && len(load.Results(ret)) == 2 {
+						if load.Results(ret)[0] == bit {
+							if c, ok := load.Results(ret)[1].(*ssa.Const); ok && c.IsNil() {
+								okBit = true
+							}
+						}
+					}
+					switch {
+					case !okBit:
+						run.Violate("unknown-label-rejected", key+"/Equal(selected)", p.Rel(call.Pos()), "the label is compared with the wire's label for a chosen bit, but the function does not answer that bit when they are equal", nil)
+					case !errorExit(fEdge):
+						run.Violate("unknown-label-rejected", key+"/Equal(selected)", p.Rel(call.Pos()), "when the label differs from the wire's label for the chosen bit the function does not leave with an error: a corrupted output label is turned into a result bit", nil)
+					default:
+						chains++
+						run.OK("unknown-label-rejected", key+"/Equal(selected)", p.Rel(call.Pos()), "compared with the wire's label for the chosen bit: equal answers that bit, otherwise an error")
+					}
+					continue
+				}
 				run.Undecided("unknown-label-rejected", key+"/Equal", p.Rel(call.Pos()), "the compared operand is not a wire's L0 or L1")
 				continue
 			}
 			// the value chosen on the true edge
 			want := idx == 1
 			okVal, seen := true, false
-			tb := b.Succs[0]
+			tb := tEdge
 			if ret, ok := tb.Instrs[len(tb.Instrs)-1].(*ssa.Return); ok && len(load.Results(ret)) == 2 {
 				if c, ok := load.Results(ret)[0].(*ssa.Const); ok && c.Value != nil && c.Value.Kind() == constant.Bool {
 					seen = true
@@ -236,7 +263,7 @@ func C16label(p *load.Program, run *report.Run) {
 				}
 			}
 			// the false edge: another comparison, or the rejection
-			fb := b.Succs[1]
+			fb := fEdge
 			next := false
 			if fi, ok := fb.Instrs[len(fb.Instrs)-1].(*ssa.If); ok {
 				if c2, _ := isLabelEqual(fi.Cond); c2 != nil {
@@ -449,4 +476,50 @@ func C16label(p *load.Program, run *report.Run) {
 func fn16key(f *ssa.Function) string {
 	pp := strings.TrimPrefix(f.Pkg.Pkg.Path(), load.Module+"/")
 	return pp + "." + f.Name()
+}
+
+// selectedLabelBit: one operand of the Equal call is the result of a selector F(wire, b) of the module
+// that returns the wire's L1 when b holds and its L0 otherwise; the bit b is returned.
+func selectedLabelBit(eq *ssa.Call) ssa.Value {
+	for _, a := range eq.Call.Args {
+		c, ok := a.(*ssa.Call)
+		if !ok {
+			continue
+		}
+		f := c.Call.StaticCallee()
+		if f == nil || f.Blocks == nil || !load.InModule(f) || len(f.Params) != 2 || len(c.Call.Args) != 2 {
+			continue
+		}
+		if b, isBasic := f.Params[1].Type().Underlying().(*types.Basic); !isBasic || b.Kind() != types.Bool {
+			continue
+		}
+		// the selector: an If on its bool parameter whose true side returns field L1 and false side L0 of the wire parameter
+		fieldRet := func(blk *ssa.BasicBlock) string {
+			ret, ok := blk.Instrs[len(blk.Instrs)-1].(*ssa.Return)
+			if !ok || len(ret.Results) != 1 {
+				return ""
+			}
+			switch t := ret.Results[0].(type) {
+			case *ssa.Field:
+				if t.X == ssa.Value(f.Params[0]) {
+					return t.X.Type().Underlying().(*types.Struct).Field(t.Field).Name()
+				}
+			case *ssa.UnOp:
+				if fa, ok := t.X.(*ssa.FieldAddr); ok && t.Op == token.MUL {
+					return structFieldName(fa.X.Type(), fa.Field)
+				}
+			}
+			return ""
+		}
+		for _, blk := range f.Blocks {
+			iff, ok := blk.Instrs[len(blk.Instrs)-1].(*ssa.If)
+			if !ok || iff.Cond != ssa.Value(f.Params[1]) {
+				continue
+			}
+			if fieldRet(blk.Succs[0]) == "L1" && fieldRet(blk.Succs[1]) == "L0" {
+				return c.Call.Args[1]
+			}
+		}
+	}
+	return nil
 }
